@@ -371,7 +371,7 @@ pub fn run(run: &Run) {
     let workers = run.workers();
     prop_search(
         run,
-        Search { check: "frame-insertions", cases: run.tier.pick(80_000, 3_000_000), workers, max_shrink_iters: 6000 },
+        Search { check: "frame-insertions", cases: run.tier.pick(500_000, 6_000_000), workers, max_shrink_iters: 6000 },
         case_strategy,
         |c| {
             let has_unknown = c.ins.iter().any(|i| !refcodec::is_grease(i.ty));
@@ -385,7 +385,7 @@ pub fn run(run: &Run) {
     run.essential("ins:unknown-type");
     prop_search(
         run,
-        Search { check: "settings-insertions", cases: run.tier.pick(40_000, 1_000_000), workers, max_shrink_iters: 4000 },
+        Search { check: "settings-insertions", cases: run.tier.pick(300_000, 3_000_000), workers, max_shrink_iters: 4000 },
         settings_ins_strategy,
         |c| wrap(vcore::catch(|| test_settings_insertions(c))),
         |c| serde_json::to_value(c).unwrap(),
